@@ -258,6 +258,8 @@ Lemma foa_mid s0 x s T v w :
   valid s v → valid s w → x + 1 < lvl_of s v → x + 1 < lvl_of s w →
   ∃ p s', find_or_add (x + 1) v w s = (Ok p, s') ∧ Mid s0 x s' T ∧
     succ s ⊆ succ s' ∧ foa_res s' (x + 1) v w p ∧
+    (∀ n, succ s !! n = None → is_Some (succ s' !! n) →
+          n = absn p ∧ lvl_of s' p = x + 1) ∧
     (s' = s ∨
      (sgn w * v ≠ sgn w * w)%Z ∧ succ s !! min_free s = None ∧
      s' = bump (sgn w * w) (bump (sgn w * v)
@@ -269,15 +271,21 @@ Proof.
              ltac:(rewrite (Mid_nvars _ _ _ _ HM); lia) Hv Hw (m_ref _ _ _ _ HM) Hfree
              (Mid_min_free _ _ _ _ HM)).
   case_decide as E.
-  { exists v, s. split_and!; try done; [by left|by left]. }
+  { exists v, s. split_and!; try done; [by left| |by left].
+    intros n Hn [? ?]. congruence. }
   destruct (pred s !! Triple (x + 1) (sgn w * v) (sgn w * w)) as [u|] eqn:Hp.
-  { exists (sgn w * Z.pos u)%Z, s. split_and!; try done; [|by left].
+  { exists (sgn w * Z.pos u)%Z, s. split_and!; try done; [| |by left];
+      [|intros n Hn [? ?]; congruence].
     right. split; [done|]. exists u. split; [|done]. by apply (m_pred _ _ _ _ HM) in Hp as [? _]. }
   destruct (Mid_add s0 x s T (sgn w * v) (sgn w * w) HM Hy) as (HM'&Hsub&Hnew);
     try done; try (by apply valid_sgn); try (by rewrite lvl_sgn).
   { apply sgn_pos, Hw. }
   eexists _, _. split; [reflexivity|]. split_and!; try done.
   - right. split; [done|]. exists (min_free s). done.
+  - intros n Hn Hn'. cbn in Hn'. destruct (decide (n = min_free s)) as [->|Hne].
+    + rewrite absn_sgn, absn_pos. split; [done|].
+      unfold lvl_of. rewrite absn_sgn, absn_pos, Hnew. done.
+    + rewrite lookup_insert_ne in Hn' by done. destruct Hn'. congruence.
   - right. done.
 Qed.
 
@@ -340,7 +348,7 @@ Lemma foa_mid_counts s0 x s T L u v w p s' :
   find_or_add (x + 1) v w s = (Ok p, s') → CountsD s' L u.
 Proof.
   intros HI HM Hy Hv Hw Hlv Hlw HC Hu Hrun.
-  destruct (foa_mid s0 x s T v w HM Hy Hv Hw Hlv Hlw) as (p'&s''&Hrun'&_&_&_&Hs).
+  destruct (foa_mid s0 x s T v w HM Hy Hv Hw Hlv Hlw) as (p'&s''&Hrun'&_&_&_&_&Hs).
   rewrite Hrun in Hrun'. injection Hrun' as -> ->.
   destruct Hs as [->|(_&Hfree&->)]; [done|].
   apply CountsD_add; try done; try (by apply valid_sgn).
